@@ -1101,7 +1101,7 @@ package gorm
 //@ # Replace(&a, &b, &c) on one record empties the in-memory relation before the first target only; clearing before
 //@ # every target would keep (and save) just the last one and unlink the others.
 //@ site replace-clears-before-the-first-target-only
-//@   match calldyn local:appendToRelations
+//@   match call gorm.(*Association).saveAssociation$1
 //@   in gorm.(*Association).saveAssociation
 //@   min-sites 2
 //@   assert cleared-once: defined(rv) ==> arg2 == (clear && idx == 0) [C12]
